@@ -117,10 +117,10 @@ func genC13(t *testing.T) {
 	nr := common.Pick(1500, 100000)
 	for i := 0; i < nr; i++ {
 		r := common.RngN("c13", uint64(i))
-		ops := 1 + r.IntN(6)
+		ops := 1 + wide(r, 6, 15, 40)
 		iv := ivs[r.IntN(len(ivs))]
 		ln := r.IntN(61)
-		c := &caseT{N: ops, Tick: iv, Cap: r.IntN(5), Inputs: [][]int{ids(1000, ln)}, Comment: "random"}
+		c := &caseT{N: ops, Tick: iv, Cap: wide(r, 5, 8, 16, 64), Inputs: [][]int{ids(1000, ln)}, Comment: "random"}
 		steps := []string{fmt.Sprintf("A%d", iv), fmt.Sprintf("A%d", iv/2), fmt.Sprintf("A%d", iv/3+1), fmt.Sprintf("A%d", 2*iv+7)}
 		var clock []string
 		for k := r.IntN(ln/ops + 6); k > 0; k-- {
